@@ -25,6 +25,7 @@
  *              SHA-512         64 byte / 512 bit
  */
 
+#include <stddef.h>
 #include <stdint.h>
 /*
  * If you do not have the ISO standard stdint.h header file, then you
@@ -159,7 +160,7 @@ typedef struct HMACContext {
 /* SHA-224 */
 extern int SHA224Reset(SHA224Context *);
 extern int SHA224Input(SHA224Context *, const uint8_t *bytes,
-                       unsigned int bytecount);
+                       size_t bytecount);
 extern int SHA224FinalBits(SHA224Context *, const uint8_t bits,
                            unsigned int bitcount);
 extern int SHA224Result(SHA224Context *,
@@ -168,7 +169,7 @@ extern int SHA224Result(SHA224Context *,
 /* SHA-256 */
 extern int SHA256Reset(SHA256Context *);
 extern int SHA256Input(SHA256Context *, const uint8_t *bytes,
-                       unsigned int bytecount);
+                       size_t bytecount);
 extern int SHA256FinalBits(SHA256Context *, const uint8_t bits,
                            unsigned int bitcount);
 extern int SHA256Result(SHA256Context *,
@@ -177,7 +178,7 @@ extern int SHA256Result(SHA256Context *,
 /* SHA-384 */
 extern int SHA384Reset(SHA384Context *);
 extern int SHA384Input(SHA384Context *, const uint8_t *bytes,
-                       unsigned int bytecount);
+                       size_t bytecount);
 extern int SHA384FinalBits(SHA384Context *, const uint8_t bits,
                            unsigned int bitcount);
 extern int SHA384Result(SHA384Context *,
@@ -186,7 +187,7 @@ extern int SHA384Result(SHA384Context *,
 /* SHA-512 */
 extern int SHA512Reset(SHA512Context *);
 extern int SHA512Input(SHA512Context *, const uint8_t *bytes,
-                       unsigned int bytecount);
+                       size_t bytecount);
 extern int SHA512FinalBits(SHA512Context *, const uint8_t bits,
                            unsigned int bitcount);
 extern int SHA512Result(SHA512Context *,
